@@ -26,19 +26,10 @@ def is_from_reader(t):
     return c.get("crate") == "ciborium" and c.get("name", "").startswith("from_reader")
 
 
-def check(ctx):
+def check_read_to_value(ctx, rule):
+    """read_to_value hands back exactly the item the parser produced (not a part of it, not something unwrapped from it),
+    only when the slice is exhausted; every other exit is an error"""
     prog = ctx.prog
-    # ---- R-1 ------------------------------------------------------------
-    sites = []
-    for f in prog.real_fns():
-        for bb, t in f.calls():
-            if is_from_reader(t):
-                sites.append((f, bb, t))
-    ctx.count("from_reader_call_sites", len(sites))
-    ctx.ob("R-1", "single-parser-entry", len(sites) == 1 and sites[0][0].key == READ,
-           "the only call of ciborium::de::from_reader* in the crate is in common::read_to_value",
-           where=", ".join("%s (%s)" % (f.key, f.where(bb)) for f, bb, _ in sites) or None,
-           detail={"sites": [f.key for f, _, _ in sites]})
     rtv = prog.fn(READ)
     pv = Prov(rtv)
     outs = outcomes(rtv, pv)
@@ -63,19 +54,36 @@ def check(ctx):
                 p_bb = v[1][3][1]
                 guard_ok = rtv.cfg.dominates(p_bb, e_bb) and p_bb != e_bb
         good_ok = val_ok and guard_ok
-    ctx.ob("R-1", "ok-only-when-slice-empty", good_ok,
+    ctx.ob(rule, "ok-only-when-slice-empty", good_ok,
            "read_to_value returns Ok(v) only with v = the parsed item and only on the is_empty() edge of the same slice, tested after the parse",
            where=rtv.span, detail=det, sample=det)
     err_ok = len(errs) == 1 and errs[0]["inner"][0] == "aggr" and errs[0]["inner"][2] == "ExtraneousData"
     if err_ok:
         conds = [normalize_bool_cond(c) for c in errs[0]["conds"]]
         err_ok = any(c and c[1] is False and is_call(c[0], "core::slice::<impl [T]>::is_empty") for c in conds)
-    ctx.ob("R-1", "trailing-bytes-rejected", err_ok,
+    ctx.ob(rule, "trailing-bytes-rejected", err_ok,
            "the non-empty edge returns Err(ExtraneousData)", where=rtv.span,
            detail={"errs": [show(e["term"]) for e in errs]})
-    ctx.ob("R-1", "no-other-exit", len(props) == 1 and not others,
+    ctx.ob(rule, "no-other-exit", len(props) == 1 and not others,
            "read_to_value has no exit besides Ok / ExtraneousData / the parser's error",
            where=rtv.span, detail={"outcomes": [(o["kind"], show(o["term"])[:120]) for o in outs]})
+
+
+
+def check(ctx):
+    prog = ctx.prog
+    # ---- R-1 ------------------------------------------------------------
+    sites = []
+    for f in prog.real_fns():
+        for bb, t in f.calls():
+            if is_from_reader(t):
+                sites.append((f, bb, t))
+    ctx.count("from_reader_call_sites", len(sites))
+    ctx.ob("R-1", "single-parser-entry", len(sites) == 1 and sites[0][0].key == READ,
+           "the only call of ciborium::de::from_reader* in the crate is in common::read_to_value",
+           where=", ".join("%s (%s)" % (f.key, f.where(bb)) for f, bb, _ in sites) or None,
+           detail={"sites": [f.key for f, _, _ in sites]})
+    check_read_to_value(ctx, "R-1")
 
     # ---- who may call read_to_value ------------------------------------------
     callers = sorted({f.key for f in prog.real_fns() for bb, t in f.calls() if callee_path(t) == READ})
